@@ -57,7 +57,12 @@ type Opts struct {
 	Unsupported []int // further numbers listed in the SOD and stored, but not supported by the reader (3, 4, 5, ...)
 	EFDIR       bool  // the chip answers SELECT 2F00 inside the LDS application with an EF.DIR
 	DG2Size     int   // exact size of DG2 (0: small random)
-	DG7Size     int
+	// ExtraAccessInfos are further security infos advertised in EF.CardAccess (and repeated in
+	// DG14 / CardSecurity) next to the chip's own PACEInfo, which is placed at index OwnInfoPos:
+	// suites the reader does not implement, unknown protocols, foreign infos.
+	ExtraAccessInfos [][]byte
+	OwnInfoPos       int
+	DG7Size          int
 
 	AA AAOpts
 	CA CAOpts
@@ -71,6 +76,23 @@ type Opts struct {
 }
 
 var Countries = [][2]string{{"NLD", "NL"}, {"FRA", "FR"}, {"USA", "US"}, {"GBR", "GB"}, {"NZL", "NZ"}, {"SGP", "SG"}, {"CHE", "CH"}, {"AUS", "AU"}, {"MYS", "MY"}}
+
+// UnsupportedAccessInfo draws a security info a conforming chip may advertise in EF.CardAccess
+// and that the reader does not implement: PACE with integrated mapping or finite-field DH, an
+// unknown protocol under id-PACE, or a foreign info.
+func UnsupportedAccessInfo(r *mrand.Rand) []byte {
+	switch r.IntN(5) {
+	case 0:
+		return chipsim.PaceInfoDER(chipsim.PaceOIDArcs(chipsim.PaceECDHIM, symref.AllSuites[r.IntN(4)]), 2, 8+r.IntN(11))
+	case 1:
+		return chipsim.PaceInfoDER(chipsim.PaceOIDArcs(chipsim.PaceDHGM, symref.AllSuites[r.IntN(4)]), 2, r.IntN(3))
+	case 2:
+		return chipsim.PaceInfoDER(chipsim.PaceOIDArcs(chipsim.PaceDHIM, symref.AllSuites[r.IntN(4)]), 2, r.IntN(3))
+	case 3:
+		return chipsim.PaceInfoDER([]int{0, 4, 0, 127, 0, 7, 2, 2, 4, 7 + r.IntN(5), 1 + r.IntN(4)}, 2, 8+r.IntN(11))
+	}
+	return der.Seq(der.OID(1, 2, 840, 113549, 1, 9, 99, r.IntN(100)), der.Int64(1))
+}
 
 // Perso is a personalised document: the files and the secrets a chip needs.
 type Perso struct {
@@ -248,8 +270,21 @@ func Build(r *mrand.Rand, o Opts) *Perso {
 	var dg14Infos [][]byte
 	if pace {
 		own := chipsim.PaceInfoDER(chipsim.PaceOIDArcs(paceMapping(o.Access), o.Suite), 2, o.ParamID)
-		p.MF[chipsim.FidCardAccess] = der.SetUnsorted(own)
-		dg14Infos = append(dg14Infos, own)
+		infos := [][]byte{own}
+		if len(o.ExtraAccessInfos) > 0 {
+			infos = nil
+			for j, e := range o.ExtraAccessInfos {
+				if j == o.OwnInfoPos {
+					infos = append(infos, own)
+				}
+				infos = append(infos, e)
+			}
+			if o.OwnInfoPos >= len(o.ExtraAccessInfos) || o.OwnInfoPos < 0 {
+				infos = append(infos, own)
+			}
+		}
+		p.MF[chipsim.FidCardAccess] = der.SetUnsorted(infos...)
+		dg14Infos = append(dg14Infos, infos...)
 		if o.Access == PACECAM {
 			cv := ecref.ByParamID(o.ParamID)
 			sk := issuer.NewECKey(r, cv)
@@ -260,7 +295,7 @@ func Build(r *mrand.Rand, o Opts) *Perso {
 			}
 			pkInfo := issuer.ChipAuthPublicKeyInfoStd(o.ParamID, cv.Encode(sk.EC.Q), keyID)
 			// the security object of CardSecurity is signed below, once the PKI exists
-			p.MF[chipsim.FidCardSecurity] = der.Set(pkInfo, own) // placeholder: SecurityInfos
+			p.MF[chipsim.FidCardSecurity] = der.Set(append([][]byte{pkInfo}, infos...)...) // placeholder: SecurityInfos
 		}
 	}
 	if o.CA.On {
